@@ -1,8 +1,1376 @@
-//! stub - under construction
+//! Engine `cli` (C18): the real avra-rs binary as one simulated process (DESIGN.md 5.4).
+//!
+//! System: the binary built from the tree with the guard off, one process per run, simlibc
+//! preloaded, cwd / XDG_CONFIG_HOME / argv / pre-existing files chosen by the scenario.
+//! Reference: avra_lib::builder::build_file of the same tree, in-process, fault-free.
+//! Oracle: exit status, stdout+stderr, diff of the scratch tree against a snapshot, trace.
+
 use crate::common::*;
-use serde_json::Value;
-pub const RULE: &str = "";
-pub const ASSUMPTIONS: &[&str] = &[];
-pub fn worker(_cfg: &WorkerCfg, _emit: &mut dyn FnMut(Violation)) -> Stats { Stats::default() }
-pub fn replay(_s: &Value) -> Result<Option<Violation>, String> { Err("not built".into()) }
-pub fn shrink(_s: &Value) -> Vec<Value> { vec![] }
+use crate::hexread;
+use crate::proggen;
+use crate::rng::{fnv, mix, Rng};
+use crate::simlibc::{self, Call, Event};
+use serde::{Deserialize, Serialize};
+use serde_json::{json, Value};
+use std::collections::{BTreeMap, BTreeSet};
+use std::io::Read;
+use std::os::unix::process::CommandExt;
+use std::path::{Component, Path, PathBuf};
+use std::process::{Command, Stdio};
+
+pub const RULE: &str = "Scenario g is drawn from seed mix(VERIF_SEED, g): a source class (generated program that builds or fails at a chosen stage, with/without EEPROM data; empty; comments only; EEPROM only; missing source; a shipped part file through the installed standard include directory; a local include; flash image crossing one or more 64 KiB boundaries) x a source path form (bare, ./, sub-directory with cwd elsewhere, absolute; stems with several dots, no extension, a space, non-ASCII) x options (-o/-e relative, absolute, other directory, long and = forms, -v) x pre-existing files (longer stale outputs at the default and -o/-e paths, unrelated neighbours) x output locations (normal, missing directory, a directory, /dev/full). A fault-free profile run of the binary gives the sequence of libc calls it makes on sources, includes, outputs and stdout; faulted configurations place one fault (quick: one or two, seeded; thorough: additionally every call x every applicable fault kind for a share of the scenarios) inside that sequence, or set RLIMIT_FSIZE = n, or close stdout / point it at /dev/full. Non-trivial: a fault fired or a real output-location failure happened, or (fault-free) the run wrote at least one output or failed a build; distinct by (source class, option set, pre-state, fired-rule list, exit status).";
+
+pub const ASSUMPTIONS: &[&str] = &[
+    "the reference is the tree's own library (build_file with the standard include directory), as the property defines the expected images",
+    "the independent HEX reader (hexread.rs) decides what a file decodes to",
+    "lenient readings where the statement is silent: an empty image may be skipped or written as an empty file; exit status on success is recorded, not demanded; after a failed write a partial file may remain at the faulted path",
+    "file names are valid UTF-8; -o, -e and the source are three different paths",
+    "LD_PRELOAD interposition reaches every libc call of the binary's Rust std (verified by the profile trace: source, includes, both outputs and stdout all appear)",
+];
+
+#[derive(Serialize, Deserialize, Clone, Debug)]
+pub struct Scenario {
+    pub engine: String,
+    /// path relative to the scratch root -> text
+    pub files: BTreeMap<String, String>,
+    /// path -> size of a stale file of STALE bytes (not valid HEX)
+    pub stale: BTreeMap<String, usize>,
+    pub dirs: Vec<String>,
+    pub cwd: String,
+    /// "$R" stands for the scratch root
+    pub argv: Vec<String>,
+    pub rules: Vec<RuleSpec>,
+    pub read_cap: usize,
+    pub write_cap: usize,
+    pub fsize_limit: Option<u64>,
+    /// "pipe" | "closed" | "devfull"
+    pub stdout: String,
+    pub hash_seed: u64,
+    pub source_class: String,
+    pub config: String,
+}
+
+// ---------------------------------------------------------------------------------------------
+// documented behaviour: where the outputs go
+// ---------------------------------------------------------------------------------------------
+
+#[derive(Debug, Clone, Default)]
+pub struct Parsed {
+    pub source: Option<String>,
+    pub output: Option<String>,
+    pub eeprom: Option<String>,
+    pub verbose: bool,
+}
+
+pub fn parse_argv(argv: &[String]) -> Parsed {
+    let mut p = Parsed::default();
+    let mut i = 0;
+    while i < argv.len() {
+        let a = &argv[i];
+        let mut take = |slot: &mut Option<String>, inline: Option<&str>, i: &mut usize| {
+            if let Some(v) = inline {
+                *slot = Some(v.to_string());
+            } else if *i + 1 < argv.len() {
+                *slot = Some(argv[*i + 1].clone());
+                *i += 1;
+            }
+        };
+        if a == "-s" || a == "--source" {
+            take(&mut p.source, None, &mut i);
+        } else if let Some(v) = a.strip_prefix("--source=") {
+            take(&mut p.source, Some(v), &mut i);
+        } else if a == "-o" || a == "--output" {
+            take(&mut p.output, None, &mut i);
+        } else if let Some(v) = a.strip_prefix("--output=") {
+            take(&mut p.output, Some(v), &mut i);
+        } else if a == "-e" || a == "--eeprom" {
+            take(&mut p.eeprom, None, &mut i);
+        } else if let Some(v) = a.strip_prefix("--eeprom=") {
+            take(&mut p.eeprom, Some(v), &mut i);
+        } else if a == "-v" || a == "--verbosity" {
+            p.verbose = true;
+        }
+        i += 1;
+    }
+    p
+}
+
+/// lexical normalisation of an absolute path ("." and ".." resolved; no symlinks in the scratch tree)
+fn normalise(p: &Path) -> PathBuf {
+    let mut out = PathBuf::new();
+    for c in p.components() {
+        match c {
+            Component::ParentDir => {
+                out.pop();
+            }
+            Component::CurDir => {}
+            other => out.push(other.as_os_str()),
+        }
+    }
+    out
+}
+
+/// "<source stem>.hex next to the source (or the -o path)", "<stem>.eep.hex (or the -e path)"
+pub fn expected_paths(root: &Path, cwd: &str, p: &Parsed) -> Option<(PathBuf, PathBuf)> {
+    let base = root.join(cwd);
+    let src = PathBuf::from(p.source.as_ref()?);
+    let stem = src.file_stem()?.to_str()?.to_string();
+    let parent = src.parent().map(|x| x.to_path_buf()).unwrap_or_default();
+    let abs = |q: &Path| -> PathBuf { normalise(&if q.is_absolute() { q.to_path_buf() } else { base.join(q) }) };
+    let code = match &p.output {
+        Some(o) => abs(Path::new(o)),
+        None => abs(&parent.join(format!("{}.hex", stem))),
+    };
+    let eep = match &p.eeprom {
+        Some(o) => abs(Path::new(o)),
+        None => abs(&parent.join(format!("{}.eep.hex", stem))),
+    };
+    Some((code, eep))
+}
+
+// ---------------------------------------------------------------------------------------------
+// the simulated disk
+// ---------------------------------------------------------------------------------------------
+
+pub fn stale_bytes(n: usize) -> Vec<u8> {
+    let mut v = Vec::with_capacity(n);
+    while v.len() < n {
+        v.extend_from_slice(b"STALE-OUTPUT-FROM-AN-EARLIER-RUN\n");
+    }
+    v.truncate(n);
+    v
+}
+
+type Snapshot = BTreeMap<String, Option<Vec<u8>>>; // None = directory
+
+fn snapshot(root: &Path) -> Snapshot {
+    fn walk(root: &Path, dir: &Path, out: &mut Snapshot) {
+        if let Ok(rd) = std::fs::read_dir(dir) {
+            for e in rd.flatten() {
+                let p = e.path();
+                let rel = p.strip_prefix(root).unwrap().to_string_lossy().into_owned();
+                let ft = match e.file_type() {
+                    Ok(t) => t,
+                    Err(_) => continue,
+                };
+                if ft.is_dir() {
+                    out.insert(rel, None);
+                    walk(root, &p, out);
+                } else {
+                    out.insert(rel, Some(std::fs::read(&p).unwrap_or_default()));
+                }
+            }
+        }
+    }
+    let mut s = Snapshot::new();
+    walk(root, root, &mut s);
+    s
+}
+
+fn materialise(sc: &Scenario, root: &Path) -> Result<(), String> {
+    for d in &sc.dirs {
+        std::fs::create_dir_all(root.join(d)).map_err(|e| format!("mkdir {}: {}", d, e))?;
+    }
+    std::fs::create_dir_all(root.join(&sc.cwd)).map_err(|e| e.to_string())?;
+    for (p, t) in &sc.files {
+        let fp = root.join(p);
+        if let Some(d) = fp.parent() {
+            std::fs::create_dir_all(d).map_err(|e| e.to_string())?;
+        }
+        std::fs::write(&fp, t.as_bytes()).map_err(|e| format!("write {}: {}", p, e))?;
+    }
+    for (p, n) in &sc.stale {
+        let fp = root.join(p);
+        if let Some(d) = fp.parent() {
+            std::fs::create_dir_all(d).map_err(|e| e.to_string())?;
+        }
+        std::fs::write(&fp, stale_bytes(*n)).map_err(|e| format!("write {}: {}", p, e))?;
+    }
+    Ok(())
+}
+
+// ---------------------------------------------------------------------------------------------
+// reference build (in-process, fault-free)
+// ---------------------------------------------------------------------------------------------
+
+#[derive(Debug, Clone)]
+pub enum Reference {
+    Built { code: Vec<u8>, eeprom: Vec<u8> },
+    Fails(String),
+}
+
+pub fn reference(root: &Path, sc: &Scenario) -> Reference {
+    let p = parse_argv(&sc.argv);
+    let src = match p.source {
+        Some(s) => s.replace("$R", &root.to_string_lossy()),
+        None => return Reference::Fails("no source argument".into()),
+    };
+    let cwd = root.join(&sc.cwd);
+    let old = std::env::current_dir().ok();
+    if std::env::set_current_dir(&cwd).is_err() {
+        return Reference::Fails("cwd".into());
+    }
+    let h = std::thread::Builder::new()
+        .stack_size(64 << 20)
+        .spawn(move || {
+            std::panic::catch_unwind(|| {
+                avra_lib::builder::build_file(PathBuf::from(src), maplit::btreeset! { avra_lib::utility::get_standard_includes() }).map_err(|e| e.to_string())
+            })
+        })
+        .expect("spawn");
+    let r = h.join();
+    if let Some(o) = old {
+        let _ = std::env::set_current_dir(o);
+    }
+    match r {
+        Ok(Ok(Ok(b))) => Reference::Built { code: b.code, eeprom: b.eeprom },
+        Ok(Ok(Err(e))) => Reference::Fails(e),
+        Ok(Err(p)) => Reference::Fails(format!("panic: {}", panic_text(p))),
+        Err(p) => Reference::Fails(format!("panic: {}", panic_text(p))),
+    }
+}
+
+// ---------------------------------------------------------------------------------------------
+// running the binary
+// ---------------------------------------------------------------------------------------------
+
+pub struct Env {
+    pub scratch: Scratch,
+    pub root: PathBuf,
+    pub ctl: PathBuf,
+    pub bin: PathBuf,
+    pub preload: PathBuf,
+    pub xdg: PathBuf,
+}
+
+impl Env {
+    pub fn new(tag: &str) -> Result<Env, String> {
+        let scratch = Scratch::new(tag).map_err(|e| e.to_string())?;
+        let root = scratch.path("root");
+        let ctl = scratch.path("ctl");
+        std::fs::create_dir_all(&root).map_err(|e| e.to_string())?;
+        std::fs::create_dir_all(&ctl).map_err(|e| e.to_string())?;
+        let bin = PathBuf::from(std::env::var("VERIF_AVRA_BIN").map_err(|_| "VERIF_AVRA_BIN not set (run through /verif/check)")?);
+        let preload = PathBuf::from(std::env::var("VERIF_PRELOAD").map_err(|_| "VERIF_PRELOAD not set")?);
+        let xdg = PathBuf::from(std::env::var("VERIF_XDG").map_err(|_| "VERIF_XDG not set")?);
+        if !bin.exists() {
+            return Err(format!("binary {} missing", bin.display()));
+        }
+        if !preload.exists() {
+            return Err(format!("preload library {} missing", preload.display()));
+        }
+        let xdg = xdg.canonicalize().map_err(|e| format!("xdg: {}", e))?;
+        // the in-process reference finds the standard include directory through the same variable
+        std::env::set_var("XDG_CONFIG_HOME", &xdg);
+        Ok(Env { scratch, root, ctl, bin, preload, xdg })
+    }
+    fn clear_root(&self) {
+        let _ = std::fs::remove_dir_all(&self.root);
+        let _ = std::fs::create_dir_all(&self.root);
+    }
+}
+
+pub struct RunOut {
+    pub status: Option<i32>,
+    pub signal: Option<i32>,
+    pub timed_out: bool,
+    pub stdout: Vec<u8>,
+    pub stderr: Vec<u8>,
+    pub trace: Vec<Event>,
+    pub before: Snapshot,
+    pub after: Snapshot,
+}
+
+pub fn execute(env: &Env, sc: &Scenario, budget: u64) -> Result<RunOut, String> {
+    env.clear_root();
+    materialise(sc, &env.root)?;
+    let before = snapshot(&env.root);
+    let root_s = env.root.to_string_lossy().into_owned();
+    // trace pipe
+    let mut fds = [0 as libc::c_int; 2];
+    if unsafe { libc::pipe(fds.as_mut_ptr()) } != 0 {
+        return Err("pipe".into());
+    }
+    let (rfd, wfd) = (fds[0], fds[1]);
+    unsafe {
+        libc::fcntl(rfd, libc::F_SETFD, libc::FD_CLOEXEC);
+        libc::fcntl(rfd, libc::F_SETPIPE_SZ, 1 << 20);
+    }
+    let mut conf = String::new();
+    conf.push_str(&format!("root {}\nroot2 {}\ntracefd {}\nhashseed {}\nbudget {}\n", root_s, env.xdg.join("avra-rs/includes").display(), wfd, sc.hash_seed, budget));
+    if sc.read_cap > 0 {
+        conf.push_str(&format!("readcap {}\n", sc.read_cap));
+    }
+    if sc.write_cap > 0 {
+        conf.push_str(&format!("writecap {}\n", sc.write_cap));
+    }
+    for r in rules_to_sim(&sc.rules)? {
+        conf.push_str(&simlibc::conf_line(&r));
+        conf.push('\n');
+    }
+    let confp = env.ctl.join("conf");
+    std::fs::write(&confp, conf).map_err(|e| e.to_string())?;
+    let argv: Vec<String> = sc.argv.iter().map(|a| a.replace("$R", &root_s)).collect();
+    let mut cmd = Command::new(&env.bin);
+    cmd.args(&argv)
+        .current_dir(env.root.join(&sc.cwd))
+        .env_clear()
+        .env("XDG_CONFIG_HOME", &env.xdg)
+        .env("HOME", env.ctl.join("nohome"))
+        .env("LD_PRELOAD", &env.preload)
+        .env("SIMLIBC_CONF", &confp)
+        .env("RUST_BACKTRACE", "0")
+        .stdin(Stdio::null())
+        .stderr(Stdio::piped());
+    match sc.stdout.as_str() {
+        "devfull" => {
+            let f = std::fs::OpenOptions::new().write(true).open("/dev/full").map_err(|e| e.to_string())?;
+            cmd.stdout(f);
+        }
+        _ => {
+            cmd.stdout(Stdio::piped());
+        }
+    }
+    let limit = sc.fsize_limit;
+    let close_stdout = sc.stdout == "closed";
+    unsafe {
+        cmd.pre_exec(move || {
+            libc::signal(libc::SIGXFSZ, libc::SIG_IGN);
+            if let Some(n) = limit {
+                let rl = libc::rlimit { rlim_cur: n as libc::rlim_t, rlim_max: libc::RLIM_INFINITY };
+                libc::setrlimit(libc::RLIMIT_FSIZE, &rl);
+            }
+            if close_stdout {
+                libc::close(1);
+            }
+            Ok(())
+        });
+    }
+    let mut child = cmd.spawn().map_err(|e| format!("spawn: {}", e))?;
+    unsafe {
+        libc::close(wfd);
+    }
+    let mut so = child.stdout.take();
+    let mut se = child.stderr.take();
+    let t_out = std::thread::spawn(move || {
+        let mut v = vec![];
+        if let Some(s) = so.as_mut() {
+            let _ = s.read_to_end(&mut v);
+        }
+        v
+    });
+    let t_err = std::thread::spawn(move || {
+        let mut v = vec![];
+        if let Some(s) = se.as_mut() {
+            let _ = s.read_to_end(&mut v);
+        }
+        v
+    });
+    let t_trace = std::thread::spawn(move || {
+        let mut v = vec![];
+        let mut buf = [0u8; 65536];
+        loop {
+            let n = unsafe { libc::read(rfd, buf.as_mut_ptr() as *mut libc::c_void, buf.len()) };
+            if n <= 0 {
+                break;
+            }
+            v.extend_from_slice(&buf[..n as usize]);
+        }
+        unsafe {
+            libc::close(rfd);
+        }
+        v
+    });
+    // wall clock only decides *when* a hang is noticed
+    let start = now_secs();
+    let mut timed_out = false;
+    let status = loop {
+        match child.try_wait() {
+            Ok(Some(s)) => break Some(s),
+            Ok(None) => {
+                if now_secs() - start > 30.0 {
+                    timed_out = true;
+                    let _ = child.kill();
+                    break child.wait().ok();
+                }
+                std::thread::sleep(std::time::Duration::from_micros(300));
+            }
+            Err(_) => break None,
+        }
+    };
+    let stdout = t_out.join().unwrap_or_default();
+    let stderr = t_err.join().unwrap_or_default();
+    let trace_raw = t_trace.join().unwrap_or_default();
+    let trace = simlibc::parse_trace(&String::from_utf8_lossy(&trace_raw));
+    let after = snapshot(&env.root);
+    use std::os::unix::process::ExitStatusExt;
+    Ok(RunOut {
+        status: status.and_then(|s| s.code()),
+        signal: status.and_then(|s| s.signal()),
+        timed_out,
+        stdout,
+        stderr,
+        trace,
+        before,
+        after,
+    })
+}
+
+// ---------------------------------------------------------------------------------------------
+// oracle
+// ---------------------------------------------------------------------------------------------
+
+fn rel_of(root: &Path, p: &Path) -> Option<String> {
+    p.strip_prefix(root).ok().map(|r| r.to_string_lossy().into_owned())
+}
+
+#[derive(Debug, PartialEq)]
+enum PathState {
+    Untouched,
+    ExactlyRight,
+    Wrong(String),
+}
+
+fn output_state(before: &Snapshot, after: &Snapshot, rel: &Option<String>, abs: &Path, image: &[u8], opened: bool) -> PathState {
+    // outputs outside the scratch root (e.g. /dev/full) cannot be inspected: an empty image
+    // needs nothing there, a non-empty one cannot be "right"
+    let (b, a) = match rel {
+        Some(r) => (before.get(r), after.get(r)),
+        None => {
+            return if image.is_empty() || !opened { PathState::Untouched } else { PathState::Wrong(format!("{} is not a regular file that holds the image", abs.display())) };
+        }
+    };
+    let untouched = b == a;
+    let right = match a {
+        Some(Some(bytes)) => match hexread::decode(bytes).and_then(|d| hexread::matches_image(&d, image)) {
+            Ok(()) => Ok(()),
+            Err(e) => Err(e),
+        },
+        Some(None) => Err("is a directory".to_string()),
+        None => Err("does not exist".to_string()),
+    };
+    if image.is_empty() {
+        // lenient: an empty image may be skipped (path untouched) or written as an empty file
+        if untouched || right.is_ok() {
+            return if untouched { PathState::Untouched } else { PathState::ExactlyRight };
+        }
+        return PathState::Wrong(format!("empty image, but the path was altered and does not decode to the empty image: {}", right.unwrap_err()));
+    }
+    match right {
+        Ok(()) => PathState::ExactlyRight,
+        Err(e) => {
+            if untouched {
+                PathState::Untouched
+            } else {
+                PathState::Wrong(e)
+            }
+        }
+    }
+}
+
+fn is_output_path(ev_path: &str, root_rel: &Option<String>, abs: &Path) -> bool {
+    // trace paths are as the program passed them: "$R/..." for absolute, or relative to cwd
+    if let Some(r) = root_rel {
+        if ev_path == format!("$R/{}", r) {
+            return true;
+        }
+    }
+    ev_path == abs.to_string_lossy()
+}
+
+pub struct Facts {
+    pub hard_input: bool,
+    pub fault_on_code: bool,
+    pub fault_on_eep: bool,
+    pub hard_on_code: bool,
+    pub hard_on_eep: bool,
+    pub benign_fired: bool,
+    pub stdout_fault: bool,
+    pub budget_hit: bool,
+    pub any: bool,
+}
+
+fn abs_of_event(root: &Path, cwd: &str, ev_path: &str) -> PathBuf {
+    if let Some(r) = ev_path.strip_prefix("$R") {
+        normalise(&PathBuf::from(format!("{}{}", root.display(), r)))
+    } else if ev_path.starts_with('/') || ev_path.starts_with('$') || ev_path.starts_with('<') {
+        PathBuf::from(ev_path)
+    } else {
+        normalise(&root.join(cwd).join(ev_path))
+    }
+}
+
+fn facts(sc: &Scenario, out: &RunOut, root: &Path, code_abs: &Path, eep_abs: &Path) -> Facts {
+    let mut f = Facts { hard_input: false, fault_on_code: false, fault_on_eep: false, hard_on_code: false, hard_on_eep: false, benign_fired: false, stdout_fault: sc.stdout != "pipe", budget_hit: false, any: false };
+    for e in &out.trace {
+        let abs = abs_of_event(root, &sc.cwd, &e.path);
+        let on_code = abs == code_abs;
+        let on_eep = abs == eep_abs;
+        let on_std = e.path.starts_with("<std");
+        if e.rule == -2 {
+            f.budget_hit = true;
+        }
+        let injected = e.rule >= 0;
+        let failed = e.errno != 0;
+        let benign = (injected && (e.errno == libc::EINTR || (e.errno == 0 && e.ret > 0))) || (!injected && !failed && matches!(e.call, Call::Read | Call::Write) && e.ret >= 0 && e.ret < e.req && (sc.read_cap > 0 || sc.write_cap > 0 || sc.fsize_limit.is_some()));
+        let zero_write = injected && e.call == Call::Write && e.ret == 0 && e.req > 0;
+        let hard = (failed && e.errno != libc::EINTR && (injected || !(e.call == Call::Stat && e.errno == libc::ENOENT))) || zero_write;
+        if on_std {
+            if failed || injected {
+                f.stdout_fault = true;
+            }
+            continue;
+        }
+        if on_code || on_eep {
+            if hard || benign {
+                if on_code {
+                    f.fault_on_code = true;
+                }
+                if on_eep {
+                    f.fault_on_eep = true;
+                }
+            }
+            if hard {
+                if on_code {
+                    f.hard_on_code = true;
+                }
+                if on_eep {
+                    f.hard_on_eep = true;
+                }
+            }
+            if benign {
+                f.benign_fired = true;
+            }
+        } else {
+            // a source or include path
+            if hard && injected {
+                f.hard_input = true;
+            } else if benign {
+                f.benign_fired = true;
+            } else if injected {
+                f.hard_input = true;
+            }
+        }
+    }
+    f.any = f.hard_input || f.fault_on_code || f.fault_on_eep || f.benign_fired || f.stdout_fault || f.budget_hit;
+    f
+}
+
+fn text_head(b: &[u8]) -> String {
+    String::from_utf8_lossy(&b[..b.len().min(400)]).into_owned()
+}
+
+pub fn judge(sc: &Scenario, out: &RunOut, reference: &Reference, root: &Path, seed: u64) -> Option<Violation> {
+    let parsed = parse_argv(&sc.argv);
+    let mut parsed_abs = parsed.clone();
+    let root_s = root.to_string_lossy().into_owned();
+    for slot in [&mut parsed_abs.source, &mut parsed_abs.output, &mut parsed_abs.eeprom] {
+        if let Some(s) = slot {
+            *s = s.replace("$R", &root_s);
+        }
+    }
+    let (code_abs, eep_abs) = match expected_paths(root, &sc.cwd, &parsed_abs) {
+        Some(x) => x,
+        None => (root.join("__none__.hex"), root.join("__none__.eep.hex")),
+    };
+    let code_rel = rel_of(root, &code_abs);
+    let eep_rel = rel_of(root, &eep_abs);
+    let f = facts(sc, out, root, &code_abs, &eep_abs);
+    let opts = format!("{}{}{}", if parsed.output.is_some() { "o" } else { "" }, if parsed.eeprom.is_some() { "e" } else { "" }, if parsed.verbose { "v" } else { "" });
+    let fault_sig = if f.budget_hit {
+        "budget"
+    } else if f.hard_input {
+        "input"
+    } else if f.hard_on_code || f.hard_on_eep {
+        "output-hard"
+    } else if f.fault_on_code || f.fault_on_eep || f.benign_fired {
+        "benign"
+    } else if f.stdout_fault {
+        "stdout"
+    } else {
+        "none"
+    };
+    let mk = |class: &str, expected: &str, detail: Value| -> Option<Violation> {
+        Some(Violation {
+            property: "C18".into(),
+            engine: "cli".into(),
+            class: class.into(),
+            signature: format!("class={} ref={} faults={} opts={}", class, if matches!(reference, Reference::Built { .. }) { "ok" } else { "fails" }, fault_sig, opts),
+            seed,
+            expected: expected.into(),
+            observed: json!({
+                "exit_status": out.status, "signal": out.signal,
+                "stdout": text_head(&out.stdout), "stderr": text_head(&out.stderr),
+                "detail": detail,
+                "expected_flash_path": code_abs.to_string_lossy().replace(&root_s, "$R"),
+                "expected_eeprom_path": eep_abs.to_string_lossy().replace(&root_s, "$R"),
+                "trace_tail": trace_tail(&out.trace, 14),
+            }),
+            scenario: serde_json::to_value(sc).unwrap(),
+        })
+    };
+    if out.timed_out || f.budget_hit {
+        return mk("no-progress", "the process ends within the step budget (4 x the fault-free call count + 64) and 30 s", json!({"timed_out": out.timed_out}));
+    }
+    let exit0 = out.status == Some(0);
+    let printed = !out.stdout.is_empty() || !out.stderr.is_empty();
+    // what changed on the disk
+    let mut changed: Vec<String> = vec![];
+    for (k, v) in &out.after {
+        if out.before.get(k) != Some(v) {
+            changed.push(k.clone());
+        }
+    }
+    for k in out.before.keys() {
+        if !out.after.contains_key(k) {
+            changed.push(format!("{} (removed)", k));
+        }
+    }
+    let foreign: Vec<String> = changed.iter().filter(|c| Some(c.as_str()) != code_rel.as_deref() && Some(c.as_str()) != eep_rel.as_deref()).cloned().collect();
+
+    match reference {
+        Reference::Fails(why) => {
+            // clauses 1 and 3: fails visibly, nothing created or altered - whatever else fired
+            if !changed.is_empty() {
+                return mk("output-touched-though-build-fails", "when the build fails no output file is created or altered", json!({"changed": changed, "reference_error": why}));
+            }
+            if exit0 {
+                return mk("status0-on-failed-build", "when the build fails the process exits with a non-zero status", json!({"reference_error": why}));
+            }
+            if !printed && !f.stdout_fault {
+                return mk("silent-failure", "the failure is reported", json!({"reference_error": why}));
+            }
+            None
+        }
+        Reference::Built { code, eeprom } => {
+            let opened = |p: &Path| out.trace.iter().any(|e| e.call == Call::Open && e.ret >= 0 && abs_of_event(root, &sc.cwd, &e.path) == p);
+            let cs = output_state(&out.before, &out.after, &code_rel, &code_abs, code, opened(&code_abs));
+            let es = output_state(&out.before, &out.after, &eep_rel, &eep_abs, eeprom, opened(&eep_abs));
+            let need_code = !code.is_empty();
+            let need_eep = !eeprom.is_empty();
+            let code_right = cs == PathState::ExactlyRight || (!need_code && cs == PathState::Untouched);
+            let eep_right = es == PathState::ExactlyRight || (!need_eep && es == PathState::Untouched);
+            let exactly_right = code_right && eep_right && foreign.is_empty();
+            if exactly_right {
+                return None; // (A): always acceptable; the status on success is recorded, not demanded
+            }
+            let detail = json!({"flash": format!("{:?}", cs), "eeprom": format!("{:?}", es), "other_files_changed": foreign, "image_len": code.len(), "eeprom_len": eeprom.len()});
+            if !foreign.is_empty() {
+                return mk("foreign-file-touched", "no file other than the two outputs is created or altered", detail);
+            }
+            if exit0 {
+                // clause 7 (and clause 2 when nothing fired)
+                return mk("status0-with-wrong-or-missing-output", "exit status 0 implies: flash at <stem>.hex / -o and non-empty EEPROM at <stem>.eep.hex / -e decode to exactly the library's images", detail);
+            }
+            // non-zero exit, outputs not exactly right
+            if !f.any {
+                return mk("wrong-or-missing-output", "on a healthy system a source that builds gets its outputs written exactly", detail);
+            }
+            if !printed && !f.stdout_fault {
+                return mk("silent-failure", "the failure is reported", detail);
+            }
+            if f.hard_input && changed.is_empty() {
+                // clause 4: the build could not be done -> fails visibly, nothing touched
+                return None;
+            }
+            // (an input fault the tool rode through - e.g. a failing stat on one candidate
+            // location - leaves a successful build; what follows is judged as without it)
+            // clauses 5 and 6: a path on which a fault fired may hold a partial file; every
+            // other output path is untouched or exactly right
+            let code_ok = code_right || cs == PathState::Untouched || f.fault_on_code;
+            let eep_ok = eep_right || es == PathState::Untouched || f.fault_on_eep;
+            if !code_ok || !eep_ok {
+                return mk("unfaulted-output-damaged", "after a failed write a partial file may remain at the faulted path only; every output path on which nothing fired is untouched or exactly right", detail);
+            }
+            None
+        }
+    }
+}
+
+// ---------------------------------------------------------------------------------------------
+// workload
+// ---------------------------------------------------------------------------------------------
+
+const STEMS: &[&str] = &["prog", "a.b", "noext", "my prog", "прог", "UPPER", "x-1_y", "t.asm.v2"];
+const EXTS: &[&str] = &[".asm", ".asm", ".asm", ".s", ".ASM", ""];
+const PARTS: &[&str] = &["m48def.inc", "tn13def.inc", "m8def.inc", "m328Pdef.inc", "tn2313def.inc"];
+
+fn gen_program(r: &mut Rng, want_fail: Option<&str>, tag: &str) -> String {
+    let pool = proggen::Pool::new(r);
+    let mut o = proggen::GenOpts::default();
+    o.min_blocks = 3;
+    o.max_blocks = 12;
+    o.msg_tag = tag.to_string();
+    o.fail = want_fail.map(|s| s.to_string());
+    proggen::gen(r, &pool, &o).text()
+}
+
+pub fn scenario_shape(tier: &str, base_seed: u64, g: u64) -> Scenario {
+    let seed = mix(base_seed, &[0xC18, g]);
+    let mut r = Rng::new(seed);
+    let mut sc = Scenario {
+        engine: "cli".into(),
+        files: BTreeMap::new(),
+        stale: BTreeMap::new(),
+        dirs: vec![],
+        cwd: String::new(),
+        argv: vec![],
+        rules: vec![],
+        read_cap: 0,
+        write_cap: 0,
+        fsize_limit: None,
+        stdout: "pipe".into(),
+        hash_seed: seed,
+        source_class: String::new(),
+        config: String::new(),
+    };
+    // ---- the source --------------------------------------------------------------------------
+    let stem = STEMS[r.usize(STEMS.len())];
+    let ext = EXTS[r.usize(EXTS.len())];
+    let ext = if stem == "noext" { "" } else { ext };
+    let fname = format!("{}{}", stem, ext);
+    let (srcdir, cwd, form) = match r.below(5) {
+        0 => ("".to_string(), "".to_string(), "bare"),
+        1 => ("".to_string(), "".to_string(), "dot"),
+        2 => ("proj/src".to_string(), "work".to_string(), "subdir"),
+        3 => ("proj".to_string(), "".to_string(), "subdir"),
+        _ => ("abs dir/p".to_string(), "elsewhere".to_string(), "abs"),
+    };
+    sc.cwd = cwd.clone();
+    let src_rel = if srcdir.is_empty() { fname.clone() } else { format!("{}/{}", srcdir, fname) };
+    let src_arg = match form {
+        "bare" => fname.clone(),
+        "dot" => format!("./{}", fname),
+        "abs" => format!("$R/{}", src_rel),
+        _ => {
+            if cwd.is_empty() {
+                src_rel.clone()
+            } else {
+                format!("{}/{}", up_from(&cwd), src_rel)
+            }
+        }
+    };
+    let classes = ["code", "code", "code+eeprom", "code+eeprom", "eeprom-only", "empty", "comments", "fail", "fail", "missing", "part-file", "local-include", "large", "large", "gen-any"];
+    let mut class = classes[r.usize(classes.len())].to_string();
+    if tier == "thorough" && r.chance(1, 60) {
+        class = "huge".into();
+    }
+    let text: Option<String> = match class.as_str() {
+        "code" => Some(format!("{}\n    ldi r16, {}\n    nop\n", gen_program(&mut r, None, "c"), r.below(256))),
+        "code+eeprom" => Some(format!("{}.eseg\nee_final: .db {}, {}, \"tail\"\n.cseg\n    ret\n", gen_program(&mut r, None, "c"), r.below(256), r.below(256))),
+        "eeprom-only" => Some(format!("; nothing for the flash\n.eseg\n.db {}, 2, 3\n.dw {}\n", r.below(256), r.below(60000))),
+        "empty" => Some(String::new()),
+        "comments" => Some("; only a comment\n\n   // and another\n".to_string()),
+        "fail" => {
+            let k = proggen::FAIL_KINDS[r.usize(proggen::FAIL_KINDS.len())];
+            let eep = if r.chance(1, 2) { ".eseg\n.db 1, 2\n.cseg\n" } else { "" };
+            Some(format!("{}{}", eep, gen_program(&mut r, Some(k), "f")))
+        }
+        "missing" => None,
+        "part-file" => {
+            let p = PARTS[r.usize(PARTS.len())];
+            Some(format!(".include \"{}\"\n    ldi r16, low(RAMEND)\n    out SPL, r16\n.eseg\n.db 7\n", p))
+        }
+        "local-include" => {
+            let inc = format!("{}defs.inc", if srcdir.is_empty() { "".to_string() } else { format!("{}/", srcdir) });
+            let body = if r.chance(1, 4) { ".equ speed = 9\n.error \"stop in include\"\n".to_string() } else { format!(".equ speed = {}\n.def tmp = r17\n", r.below(200)) };
+            sc.files.insert(inc, body);
+            Some(".include \"defs.inc\"\n    ldi tmp, speed\n.eseg\n.dw speed\n".to_string())
+        }
+        "large" => {
+            let j = if r.chance(2, 3) { 1 } else { r.range(2, 4) };
+            let dev = match r.below(4) {
+                0 => ".device ATmega2560\n",
+                1 if j == 1 => ".device ATmega1280\n",
+                _ => "",
+            };
+            let back = r.range(0, 12);
+            let n = r.range(back + 1, back + 24);
+            let mut t = format!("{}    rjmp start\nstart:\n.org 0x{:x}\n", dev, 0x8000 * j - back);
+            for i in 0..n {
+                t.push_str(&format!("    ldi r{}, {}\n", 16 + (i % 16), (i * 7) % 256));
+            }
+            if r.chance(1, 2) {
+                t.push_str(".eseg\n.db 1\n");
+            }
+            Some(t)
+        }
+        "huge" => Some(format!("    nop\n.org 0x{:x}\n    ldi r16, 1\n    ldi r17, 2\n", 0x80000 + r.below(3) * 0x8000 - r.below(2))),
+        _ => {
+            let k = if r.chance(1, 3) { Some(proggen::FAIL_KINDS[r.usize(proggen::FAIL_KINDS.len())]) } else { None };
+            Some(gen_program(&mut r, k, "g"))
+        }
+    };
+    sc.source_class = class.clone();
+    if let Some(t) = text {
+        sc.files.insert(src_rel.clone(), t);
+    } else if !srcdir.is_empty() {
+        sc.dirs.push(srcdir.clone());
+    }
+    if !cwd.is_empty() {
+        sc.dirs.push(cwd.clone());
+    }
+    // ---- options -----------------------------------------------------------------------------
+    let mut groups: Vec<Vec<String>> = vec![];
+    let src_opt = match r.below(4) {
+        0 => vec!["--source".to_string(), src_arg.clone()],
+        1 => vec![format!("--source={}", src_arg)],
+        _ => vec!["-s".to_string(), src_arg.clone()],
+    };
+    let mut given_o = None;
+    let mut given_e = None;
+    if r.chance(2, 5) {
+        let p = out_choice(&mut r, "flash out.hex", &mut sc);
+        given_o = Some(p.clone());
+        groups.push(match r.below(3) {
+            0 => vec!["--output".to_string(), p],
+            1 => vec![format!("--output={}", p)],
+            _ => vec!["-o".to_string(), p],
+        });
+    }
+    if r.chance(2, 5) {
+        let p = out_choice(&mut r, "data.eep", &mut sc);
+        given_e = Some(p.clone());
+        groups.push(match r.below(3) {
+            0 => vec!["--eeprom".to_string(), p],
+            1 => vec![format!("--eeprom={}", p)],
+            _ => vec!["-e".to_string(), p],
+        });
+    }
+    if r.chance(1, 3) {
+        groups.push(vec![if r.chance(1, 2) { "-v".to_string() } else { "--verbosity".to_string() }]);
+    }
+    // the source option goes anywhere among the others
+    let at = r.usize(groups.len() + 1);
+    groups.insert(at, src_opt);
+    sc.argv = groups.into_iter().flatten().collect();
+    // ---- pre-existing state --------------------------------------------------------------------
+    let parsed = parse_argv(&sc.argv);
+    let root = Path::new("/ROOT");
+    let mut pabs = parsed.clone();
+    for slot in [&mut pabs.source, &mut pabs.output, &mut pabs.eeprom] {
+        if let Some(s) = slot {
+            *s = s.replace("$R", "/ROOT");
+        }
+    }
+    if let Some((c, e)) = expected_paths(root, &sc.cwd, &pabs) {
+        for (p, given) in [(c, &given_o), (e, &given_e)] {
+            if let Some(rel) = rel_of(root, &p) {
+                let is_dir_case = sc.dirs.iter().any(|d| *d == rel);
+                let missing_dir = given.as_ref().map(|g| g.starts_with("missing_dir/")).unwrap_or(false);
+                if !is_dir_case && !missing_dir && r.chance(1, 3) {
+                    sc.stale.insert(rel, 3000 + r.usize(3000));
+                }
+            }
+        }
+    }
+    if r.chance(1, 2) {
+        let d = if srcdir.is_empty() { String::new() } else { format!("{}/", srcdir) };
+        sc.files.insert(format!("{}keep.txt", d), "unrelated neighbour\n".into());
+        if r.chance(1, 2) {
+            sc.stale.insert(format!("{}{}.lst", d, stem), 100);
+        }
+    }
+    sc.dirs.sort();
+    sc.dirs.dedup();
+    // ---- configuration -----------------------------------------------------------------------
+    let cfgs = ["free", "free", "enum", "enum", "enum", "pair", "cap", "fsize", "stdout", "enum"];
+    sc.config = cfgs[r.usize(cfgs.len())].to_string();
+    match sc.config.as_str() {
+        "cap" => {
+            if r.chance(1, 2) {
+                sc.read_cap = [1usize, 3, 64][r.usize(3)];
+            }
+            if sc.read_cap == 0 || r.chance(1, 2) {
+                sc.write_cap = [1usize, 7, 16, 45, 4096][r.usize(5)];
+            }
+            if matches!(class.as_str(), "large" | "huge") {
+                sc.write_cap = sc.write_cap.max(4096) * if sc.write_cap > 0 { 1 } else { 0 };
+            }
+            if class == "part-file" && sc.read_cap > 0 {
+                sc.read_cap = 64;
+            }
+        }
+        "stdout" => {
+            sc.stdout = if r.chance(1, 2) { "devfull".into() } else { "closed".into() };
+        }
+        _ => {}
+    }
+    sc
+}
+
+fn up_from(cwd: &str) -> String {
+    cwd.split('/').filter(|s| !s.is_empty()).map(|_| "..").collect::<Vec<_>>().join("/")
+}
+
+/// where an explicitly given output goes: normal places and the real failure locations
+fn out_choice(r: &mut Rng, name: &str, sc: &mut Scenario) -> String {
+    match r.below(7) {
+        0 => name.to_string(),
+        1 => {
+            sc.dirs.push("outdir".into());
+            if sc.cwd.is_empty() {
+                format!("outdir/{}", name)
+            } else {
+                format!("{}/outdir/{}", up_from(&sc.cwd), name)
+            }
+        }
+        2 => {
+            sc.dirs.push("abs out".into());
+            format!("$R/abs out/{}", name)
+        }
+        3 => format!("missing_dir/{}", name),
+        4 => {
+            // the path is a directory
+            let d = if sc.cwd.is_empty() { name.to_string() } else { format!("{}/{}", sc.cwd, name) };
+            sc.dirs.push(d);
+            name.to_string()
+        }
+        5 => "/dev/full".to_string(),
+        _ => format!("./{}", name),
+    }
+}
+
+const INPUT_OPEN_ERR: &[&str] = &["ENOENT", "EACCES", "EMFILE", "ENFILE", "EIO", "ELOOP", "ENAMETOOLONG", "EISDIR"];
+const OUTPUT_OPEN_ERR: &[&str] = &["ENOENT", "EACCES", "EROFS", "EMFILE", "ENOSPC", "EISDIR", "EIO", "ENFILE"];
+const WRITE_FAULTS: &[&str] = &["ENOSPC", "EIO", "EDQUOT", "EFBIG", "short-by-1", "short-to-1", "EINTR", "EINTRx3", "zero"];
+const READ_FAULTS: &[&str] = &["EIO", "EISDIR", "short-to-1", "short-to-7", "EINTR"];
+const STDOUT_FAULTS: &[&str] = &["EPIPE", "ENOSPC", "EIO", "short-to-1", "EINTR"];
+
+/// All single faults applicable to event number `i` of a profile trace.
+pub fn faults_for_event(trace: &[Event], i: usize) -> Vec<Vec<RuleSpec>> {
+    let e = &trace[i];
+    let nth = trace[..i].iter().filter(|x| x.call == e.call && x.path == e.path).count() as i64;
+    let is_out = trace.iter().any(|x| x.path == e.path && x.call == Call::Write);
+    let t = e.path.as_str();
+    let mut v: Vec<Vec<RuleSpec>> = vec![];
+    match e.call {
+        Call::Stat => {
+            for er in ["EACCES", "EIO", "ELOOP"] {
+                v.push(vec![RuleSpec::errno("stat", t, nth, er, "stat-fail")]);
+            }
+        }
+        Call::Open => {
+            let (errs, kind) = if is_out { (OUTPUT_OPEN_ERR, "open-fail") } else { (INPUT_OPEN_ERR, "open-fail") };
+            for er in errs {
+                let k = if !is_out && *er == "ENOENT" { "vanish" } else { kind };
+                v.push(vec![RuleSpec::errno("open", t, nth, er, k)]);
+            }
+        }
+        Call::Read => {
+            for a in READ_FAULTS {
+                v.push(match *a {
+                    "short-to-1" => vec![RuleSpec::limit("read", t, nth, 1, "read-short")],
+                    "short-to-7" => vec![RuleSpec::limit("read", t, nth, 7, "read-short")],
+                    "EINTR" => vec![RuleSpec::errno("read", t, nth, "EINTR", "read-eintr")],
+                    er => vec![RuleSpec::errno("read", t, nth, er, "read-fail")],
+                });
+            }
+        }
+        Call::Write => {
+            let list = if t.starts_with('<') { STDOUT_FAULTS } else { WRITE_FAULTS };
+            let pre = if t.starts_with('<') { "stdout" } else { "write" };
+            for a in list {
+                v.push(match *a {
+                    "short-by-1" => vec![RuleSpec::shortby("write", t, nth, 1, &format!("{}-short", pre))],
+                    "short-to-1" => vec![RuleSpec::limit("write", t, nth, 1, &format!("{}-short", pre))],
+                    "EINTR" => vec![RuleSpec::errno("write", t, nth, "EINTR", &format!("{}-eintr", pre))],
+                    "EINTRx3" => (0..3).map(|k| RuleSpec::errno("write", t, nth + k, "EINTR", &format!("{}-eintr", pre))).collect(),
+                    "zero" => vec![RuleSpec::zero("write", t, nth, "write-zero")],
+                    er => vec![RuleSpec::errno("write", t, nth, er, &format!("{}-fail", pre))],
+                });
+            }
+        }
+        Call::Close => {
+            if is_out {
+                v.push(vec![RuleSpec::errno("close", t, nth, "EIO", "close-fail")]);
+            }
+        }
+        Call::Fsync => v.push(vec![RuleSpec::errno("fsync", t, nth, "EIO", "fsync-fail")]),
+        Call::Rename => v.push(vec![RuleSpec::errno("rename", t, nth, "EACCES", "rename-fail")]),
+        Call::Ftruncate => v.push(vec![RuleSpec::errno("ftruncate", t, nth, "EIO", "ftruncate-fail")]),
+        _ => {}
+    }
+    v
+}
+
+fn faultable_events(trace: &[Event]) -> Vec<usize> {
+    trace
+        .iter()
+        .enumerate()
+        .filter(|(_, e)| matches!(e.call, Call::Stat | Call::Open | Call::Read | Call::Write | Call::Close | Call::Fsync | Call::Rename | Call::Ftruncate) && !(e.call == Call::Stat && e.ret != 0))
+        .map(|(i, _)| i)
+        .collect()
+}
+
+fn scenario_hash(sc: &Scenario, out: &RunOut) -> u64 {
+    let fired: Vec<String> = out.trace.iter().filter(|e| e.rule >= 0).map(|e| format!("{}:{}:{}", e.call.name(), e.path, e.errno)).collect();
+    fnv(format!("{}|{:?}|{:?}|{:?}|{}|{:?}|{:?}|{:?}|{}", sc.source_class, sc.argv, sc.stale.keys().collect::<Vec<_>>(), fired, sc.stdout, sc.fsize_limit, out.status, (sc.read_cap, sc.write_cap), fnv(format!("{:?}", sc.files).as_bytes())).as_bytes())
+}
+
+struct Acc<'a> {
+    stats: &'a mut Stats,
+    emit: &'a mut dyn FnMut(Violation),
+    found: usize,
+}
+
+fn account(acc: &mut Acc, sc: &Scenario, out: &RunOut, reference: &Reference, root: &Path, seed: u64, g: u64, prof: Option<&[Event]>) {
+    let stats = &mut *acc.stats;
+    stats.runs += 1;
+    stats.steps += out.trace.len() as u64;
+    let parsed = parse_argv(&sc.argv);
+    let fired: Vec<&Event> = out.trace.iter().filter(|e| e.rule >= 0).collect();
+    let mut nontrivial = false;
+    if sc.rules.is_empty() && sc.read_cap == 0 && sc.write_cap == 0 && sc.fsize_limit.is_none() && sc.stdout == "pipe" {
+        stats.fault_free_runs += 1;
+    }
+    for e in &fired {
+        if let Some(spec) = sc.rules.get(e.rule as usize) {
+            stats.fired(&spec.kind);
+        }
+    }
+    let real_out_fail = out.trace.iter().any(|e| e.rule < 0 && e.errno != 0 && matches!(e.call, Call::Open | Call::Write) && (e.errno == libc::ENOSPC || e.errno == libc::EISDIR || e.errno == libc::EFBIG || (e.errno == libc::ENOENT && e.call == Call::Open && (e.req & libc::O_CREAT as i64) != 0)));
+    if real_out_fail {
+        for e in out.trace.iter().filter(|e| e.rule < 0 && e.errno != 0 && matches!(e.call, Call::Open | Call::Write)) {
+            let k = match e.errno {
+                x if x == libc::ENOSPC => "real-dev-full",
+                x if x == libc::EISDIR => "real-output-is-directory",
+                x if x == libc::EFBIG => "real-rlimit-fsize",
+                x if x == libc::ENOENT && (e.req & libc::O_CREAT as i64) != 0 => "real-output-dir-missing",
+                _ => continue,
+            };
+            stats.fired(k);
+        }
+    }
+    let capped = out.trace.iter().any(|e| e.rule < 0 && matches!(e.call, Call::Read | Call::Write) && e.ret > 0 && e.ret < e.req && !e.path.starts_with('<'));
+    if capped && (sc.read_cap > 0 || sc.write_cap > 0) {
+        stats.fired(if sc.write_cap > 0 { "write-cap" } else { "read-cap" });
+    }
+    if sc.stdout != "pipe" {
+        stats.fired(if sc.stdout == "closed" { "stdout-closed" } else { "stdout-dev-full" });
+    }
+    if !fired.is_empty() || real_out_fail || capped || sc.stdout != "pipe" {
+        stats.runs_with_fired_fault += 1;
+        nontrivial = true;
+    }
+    let wrote = out.trace.iter().any(|e| e.call == Call::Write && !e.path.starts_with('<') && e.ret > 0);
+    if wrote || matches!(reference, Reference::Fails(_)) {
+        nontrivial = true;
+    }
+    if nontrivial {
+        stats.distinct_nontrivial.insert(scenario_hash(sc, out));
+    }
+    stats.distinct_states.insert(fnv(format!("{}|{}{}{}|{:?}|{:?}|{:?}", sc.source_class, parsed.output.is_some(), parsed.eeprom.is_some(), parsed.verbose, sc.stale.len(), fired.iter().map(|e| (e.call.name(), e.errno)).collect::<Vec<_>>(), out.status).as_bytes()));
+    // probes
+    let built = matches!(reference, Reference::Built { .. });
+    let (clen, elen) = match reference {
+        Reference::Built { code, eeprom } => (code.len(), eeprom.len()),
+        _ => (0, 0),
+    };
+    stats.probe("default_name_taken_for_hex", built && clen > 0 && parsed.output.is_none());
+    stats.probe("default_name_taken_for_eep_hex", built && elen > 0 && parsed.eeprom.is_none());
+    stats.probe("both_o_and_e_given", parsed.output.is_some() && parsed.eeprom.is_some());
+    stats.probe("o_given_e_defaulted_with_eeprom_data", parsed.output.is_some() && parsed.eeprom.is_none() && elen > 0);
+    stats.probe("source_in_subdirectory_with_other_cwd", !sc.cwd.is_empty());
+    stats.probe("pre_existing_longer_output_overwritten", built && sc.stale.keys().any(|k| out.before.get(k) != out.after.get(k)));
+    stats.probe("failing_build_with_pre_existing_outputs", !built && !sc.stale.is_empty());
+    stats.probe("fault_on_second_output_after_first_succeeded", {
+        let first_close = out.trace.iter().position(|e| e.call == Call::Close && out.trace.iter().any(|w| w.path == e.path && w.call == Call::Write));
+        match first_close {
+            Some(p) => out.trace[p..].iter().any(|e| (e.rule >= 0 || (e.errno != 0 && e.call != Call::Stat)) && !e.path.starts_with('<')),
+            None => false,
+        }
+    });
+    stats.probe("image_over_64k_through_the_cli", clen > 65536);
+    stats.probe("shipped_part_file_found_via_installed_directory", out.trace.iter().any(|e| e.path.starts_with("$X/") && e.call == Call::Open && e.ret >= 0));
+    stats.probe("stdout_fault_while_reporting_a_failure", !built && (sc.stdout != "pipe" || fired.iter().any(|e| e.path.starts_with('<'))));
+    stats.probe("empty_flash_image_with_eeprom_data", built && clen == 0 && elen > 0);
+    stats.probe("empty_source", built && clen == 0 && elen == 0);
+    stats.probe("source_missing", sc.source_class == "missing");
+    if built && out.status != Some(0) && fired.is_empty() && !real_out_fail && sc.stdout == "pipe" && sc.fsize_limit.is_none() && !capped {
+        stats.count("exit_nonzero_on_success_recorded_not_demanded", 1);
+    }
+    stats.probe("fault_on_include_file", fired.iter().any(|e| e.path.ends_with(".inc")));
+    if let Some(p) = prof {
+        // determinism: identical to the profile up to the first event that was interfered with
+        let a: Vec<String> = p.iter().map(event_line).collect();
+        let b: Vec<String> = out.trace.iter().map(event_line).collect();
+        let first = out.trace.iter().position(|e| e.rule != -1).unwrap_or(b.len());
+        let n = first.min(a.len()).min(b.len());
+        if sc.read_cap == 0 && sc.write_cap == 0 && sc.fsize_limit.is_none() && sc.stdout == "pipe" {
+            if a[..n] != b[..n] {
+                stats.harness_errors.push(format!("determinism: faulted trace diverges from its profile before the first fault (g={})", g));
+            }
+            stats.count("profile_prefix_checks", 1);
+        }
+    }
+    if stats.samples.len() < 3 && (nontrivial && (g % 7 == 0 || !fired.is_empty())) {
+        stats.samples.push(json!({"scenario": sc, "exit_status": out.status, "stdout": text_head(&out.stdout), "reference": match reference { Reference::Built{code, eeprom} => format!("built: {} flash bytes, {} eeprom bytes", code.len(), eeprom.len()), Reference::Fails(e) => format!("fails: {}", e) }, "trace": out.trace.iter().map(event_line).collect::<Vec<_>>()}));
+    }
+    if let Some(v) = judge(sc, out, reference, root, seed) {
+        acc.found += 1;
+        (acc.emit)(v);
+    }
+}
+
+pub fn worker(cfg: &WorkerCfg, emit: &mut dyn FnMut(Violation)) -> Stats {
+    let mut stats = Stats::default();
+    let env = match Env::new(&format!("cli-w{:02}", cfg.worker)) {
+        Ok(e) => e,
+        Err(e) => {
+            stats.harness_errors.push(e);
+            return stats;
+        }
+    };
+    let start = now_secs();
+    let total = cfg.digest_only.unwrap_or(cfg.total);
+    let mut g = cfg.worker;
+    let mut acc = Acc { stats: &mut stats, emit, found: 0 };
+    while g < total {
+        if cfg.digest_only.is_none() && now_secs() - start > cfg.deadline_secs {
+            acc.stats.count("stopped_by_deadline", 1);
+            break;
+        }
+        let seed = mix(cfg.base_seed, &[0xC18, g]);
+        let mut r = Rng::new(seed ^ 0xFA17);
+        let mut sc = scenario_shape(&cfg.tier, cfg.base_seed, g);
+        acc.stats.first_seed.get_or_insert(seed);
+        acc.stats.last_seed = Some(seed);
+        // reference needs the files on disk
+        env.clear_root();
+        if let Err(e) = materialise(&sc, &env.root) {
+            acc.stats.harness_errors.push(e);
+            break;
+        }
+        let reference = reference(&env.root, &sc);
+        let needs_profile = matches!(sc.config.as_str(), "enum" | "pair" | "fsize");
+        let mut budget = 1_000_000u64;
+        let mut digest = 0u64;
+        if needs_profile {
+            let mut p = sc.clone();
+            p.rules.clear();
+            p.fsize_limit = None;
+            p.config = "free".into();
+            let prof = match execute(&env, &p, budget) {
+                Ok(o) => o,
+                Err(e) => {
+                    acc.stats.harness_errors.push(e);
+                    break;
+                }
+            };
+            account(&mut acc, &p, &prof, &reference, &env.root, seed, g, None);
+            budget = 4 * prof.trace.len() as u64 + 64;
+            let evs = faultable_events(&prof.trace);
+            digest ^= trace_digest(&prof.trace);
+            if sc.config == "fsize" {
+                let total_out: i64 = prof.trace.iter().filter(|e| e.call == Call::Write && !e.path.starts_with('<') && e.ret > 0).map(|e| e.ret).sum();
+                let biggest: i64 = {
+                    let mut per: BTreeMap<&str, i64> = BTreeMap::new();
+                    for e in prof.trace.iter().filter(|e| e.call == Call::Write && !e.path.starts_with('<') && e.ret > 0) {
+                        *per.entry(e.path.as_str()).or_insert(0) += e.ret;
+                    }
+                    per.values().copied().max().unwrap_or(0)
+                };
+                if total_out > 0 {
+                    sc.fsize_limit = Some(r.below(biggest.max(1) as u64));
+                } else {
+                    sc.config = "free".into();
+                }
+            } else if !evs.is_empty() {
+                let thorough_enum = cfg.tier == "thorough" && g % 5 == 0 && sc.config == "enum";
+                if thorough_enum {
+                    // every call x every applicable fault kind
+                    for i in &evs {
+                        for rules in faults_for_event(&prof.trace, *i) {
+                            let mut f = sc.clone();
+                            f.rules = rules;
+                            f.config = "enum-all".into();
+                            match execute(&env, &f, budget) {
+                                Ok(o) => account(&mut acc, &f, &o, &reference, &env.root, seed, g, Some(&prof.trace)),
+                                Err(e) => acc.stats.harness_errors.push(e),
+                            }
+                        }
+                    }
+                    acc.stats.count("scenarios_with_every_single_fault_enumerated", 1);
+                }
+                let k = if sc.config == "pair" { 2 } else { 1 };
+                for _ in 0..k {
+                    // bias towards output-path events: they are few among many reads
+                    let outs: Vec<usize> = evs.iter().copied().filter(|i| prof.trace.iter().any(|x| x.path == prof.trace[*i].path && x.call == Call::Write)).collect();
+                    let i = if !outs.is_empty() && r.chance(1, 2) { outs[r.usize(outs.len())] } else { evs[r.usize(evs.len())] };
+                    let opts = faults_for_event(&prof.trace, i);
+                    if !opts.is_empty() {
+                        sc.rules.extend(opts[r.usize(opts.len())].clone());
+                    }
+                }
+            }
+            let out = match execute(&env, &sc, budget) {
+                Ok(o) => o,
+                Err(e) => {
+                    acc.stats.harness_errors.push(e);
+                    break;
+                }
+            };
+            digest ^= trace_digest(&out.trace).rotate_left(1) ^ fnv(format!("{:?}|{:?}", out.status, out.after).as_bytes());
+            account(&mut acc, &sc, &out, &reference, &env.root, seed, g, Some(&prof.trace));
+        } else {
+            let out = match execute(&env, &sc, budget) {
+                Ok(o) => o,
+                Err(e) => {
+                    acc.stats.harness_errors.push(e);
+                    break;
+                }
+            };
+            digest ^= trace_digest(&out.trace) ^ fnv(format!("{:?}|{:?}", out.status, out.after).as_bytes());
+            account(&mut acc, &sc, &out, &reference, &env.root, seed, g, None);
+        }
+        acc.stats.digests.insert(g, digest);
+        if acc.found >= cfg.max_violations {
+            break;
+        }
+        g += cfg.nworkers;
+    }
+    stats
+}
+
+pub fn replay(scv: &Value) -> Result<Option<Violation>, String> {
+    let sc: Scenario = serde_json::from_value(scv.clone()).map_err(|e| e.to_string())?;
+    let env = Env::new("cli-w99")?;
+    env.clear_root();
+    materialise(&sc, &env.root)?;
+    let reference = reference(&env.root, &sc);
+    let mut p = sc.clone();
+    p.rules.clear();
+    p.fsize_limit = None;
+    let prof = execute(&env, &p, 1_000_000)?;
+    let budget = 4 * prof.trace.len() as u64 + 64;
+    let out = execute(&env, &sc, budget)?;
+    Ok(judge(&sc, &out, &reference, &env.root, 0))
+}
+
+pub fn shrink(scv: &Value) -> Vec<Value> {
+    let sc: Scenario = match serde_json::from_value(scv.clone()) {
+        Ok(s) => s,
+        Err(_) => return vec![],
+    };
+    let mut out = vec![];
+    let mut push = |s: Scenario| out.push(serde_json::to_value(s).unwrap());
+    if !sc.rules.is_empty() {
+        let mut s = sc.clone();
+        s.rules.clear();
+        push(s);
+        for i in 0..sc.rules.len() {
+            let mut s = sc.clone();
+            s.rules.remove(i);
+            push(s);
+        }
+    }
+    if sc.fsize_limit.is_some() {
+        let mut s = sc.clone();
+        s.fsize_limit = None;
+        push(s);
+    }
+    if sc.stdout != "pipe" {
+        let mut s = sc.clone();
+        s.stdout = "pipe".into();
+        push(s);
+    }
+    if sc.read_cap > 0 || sc.write_cap > 0 {
+        let mut s = sc.clone();
+        s.read_cap = 0;
+        s.write_cap = 0;
+        push(s);
+    }
+    for k in sc.stale.keys() {
+        let mut s = sc.clone();
+        s.stale.remove(k);
+        push(s);
+    }
+    // drop options
+    let p = parse_argv(&sc.argv);
+    let rebuild = |p: &Parsed| -> Vec<String> {
+        let mut a = vec![];
+        if let Some(s) = &p.source {
+            a.push("-s".to_string());
+            a.push(s.clone());
+        }
+        if let Some(s) = &p.output {
+            a.push("-o".to_string());
+            a.push(s.clone());
+        }
+        if let Some(s) = &p.eeprom {
+            a.push("-e".to_string());
+            a.push(s.clone());
+        }
+        if p.verbose {
+            a.push("-v".to_string());
+        }
+        a
+    };
+    if p.verbose {
+        let mut q = p.clone();
+        q.verbose = false;
+        let mut s = sc.clone();
+        s.argv = rebuild(&q);
+        push(s);
+    }
+    if p.output.is_some() {
+        let mut q = p.clone();
+        q.output = None;
+        let mut s = sc.clone();
+        s.argv = rebuild(&q);
+        push(s);
+    }
+    if p.eeprom.is_some() {
+        let mut q = p.clone();
+        q.eeprom = None;
+        let mut s = sc.clone();
+        s.argv = rebuild(&q);
+        push(s);
+    }
+    let canon = rebuild(&p);
+    if canon != sc.argv {
+        let mut s = sc.clone();
+        s.argv = canon;
+        push(s);
+    }
+    // drop files other than the source; drop source lines
+    let src_keys: BTreeSet<String> = sc.files.keys().cloned().collect();
+    for k in &src_keys {
+        if sc.files.len() > 1 {
+            let mut s = sc.clone();
+            s.files.remove(k);
+            push(s);
+        }
+    }
+    for (k, t) in &sc.files {
+        let lines: Vec<&str> = t.lines().collect();
+        if lines.len() > 1 {
+            // halves, then single lines (bounded)
+            let h = lines.len() / 2;
+            for keep in [&lines[..h], &lines[h..]] {
+                let mut s = sc.clone();
+                s.files.insert(k.clone(), keep.join("\n") + "\n");
+                push(s);
+            }
+            for i in 0..lines.len().min(40) {
+                let mut l2 = lines.clone();
+                l2.remove(i);
+                let mut s = sc.clone();
+                s.files.insert(k.clone(), l2.join("\n") + "\n");
+                push(s);
+            }
+        }
+    }
+    if sc.hash_seed != 0 {
+        let mut s = sc.clone();
+        s.hash_seed = 0;
+        push(s);
+    }
+    if sc.config != "min" {
+        let mut s = sc.clone();
+        s.config = "min".into();
+        push(s);
+    }
+    out
+}
